@@ -147,6 +147,10 @@ def snapshot_bytes_verified(ctx, rule_src, rule_store, fi: FuncInfo, sources=('_
     for c in self_calls(fi.node, set(stores)):
         if len(c.args) >= 2 and isinstance(c.args[1], ast.Name):
             store_stmts.append((enclosing_stmt(c), c.args[1].id, c))
+    # the helper written out in place: <Path(cache_directory, ..)>.write_bytes(var)
+    for c in ast.walk(fi.node):
+        if isinstance(c, ast.Call) and isinstance(c.func, ast.Attribute) and c.func.attr == 'write_bytes' and len(c.args) == 1 and isinstance(c.args[0], ast.Name):
+            store_stmts.append((enclosing_stmt(c), c.args[0].id, c))
     ctx.floor(rule_src, f'decoder call in {fi.qual}', len(sink_stmts))
     results = []
     for kind, stmts, rule in (('decode', sink_stmts, rule_src), ('store', store_stmts, rule_store)):
@@ -193,6 +197,13 @@ def snapshot_bytes_verified(ctx, rule_src, rule_store, fi: FuncInfo, sources=('_
                         if v is not None and state == 'unverified':
                             # only a test that is not weakened by other conjuncts/disjuncts counts
                             plain = isinstance(a.test, ast.Compare)
+                            # `var is not None and hash(var) != d` (false edge) / `var is None or hash(var) == d` (true edge): the extra
+                            # operands only say that the bytes exist - which they do in state `unverified`
+                            if isinstance(a.test, ast.BoolOp):
+                                rest = [x for x in a.test.values if _is_verify_test(x, var) is None]
+                                want = 'isnot' if isinstance(a.test.op, ast.And) else 'is'
+                                shape = (isinstance(a.test.op, ast.And) and v == 'ne') or (isinstance(a.test.op, ast.Or) and v == 'eq')
+                                plain = shape and all(_none_test(x, var) == want for x in rest) and sum(1 for x in a.test.values if _is_verify_test(x, var) is not None) == 1
                             if plain and ((v == 'ne' and n.kind == 'false') or (v == 'eq' and n.kind == 'true')):
                                 state = 'verified'
                 if state == 'infeasible':
